@@ -124,6 +124,7 @@ type LitInst struct {
 	Env    map[*ssa.Parameter]ssa.Value
 	Site   *ssa.BasicBlock // block of the analysed function where the instance comes into being
 	Pos    ssa.Instruction // instruction to report (the literal or the helper call)
+	Inner  *ssa.BasicBlock // for a literal made inside a helper: its block there (conditions inside the helper)
 }
 
 // Arg maps a helper parameter to the argument of this instance's call; other values are returned unchanged.
@@ -178,7 +179,28 @@ func LiteralInstances(fn *ssa.Function, structName string) []LitInst {
 						ret, nret = rt, nret+1
 					}
 				}
-				if nret != 1 || len(ret.Results) != 1 {
+				if ast.IsExported(h.Name()) {
+					continue
+				}
+				var returned *ssa.Alloc
+				if nret == 1 && len(ret.Results) == 1 {
+					returned, _ = ret.Results[0].(*ssa.Alloc)
+				}
+				if returned == nil || structNameOf(returned.Type()) != structName {
+					// a helper that makes such literals on its way (e.g. a loop body moved out): one instance per literal and call
+					env := map[*ssa.Parameter]ssa.Value{}
+					for i, prm := range h.Params {
+						if i < len(x.Common().Args) {
+							env[prm] = x.Common().Args[i]
+						}
+					}
+					for _, hb := range h.Blocks {
+						for _, hin := range hb.Instrs {
+							if al, ok := hin.(*ssa.Alloc); ok && structNameOf(al.Type()) == structName {
+								out = append(out, LitInst{Alloc: al, Fields: litFields(al), Env: env, Site: b, Pos: x, Inner: hb})
+							}
+						}
+					}
 					continue
 				}
 				al, ok := ret.Results[0].(*ssa.Alloc)
